@@ -2,7 +2,7 @@
    The theorems are about ordering and gating in the model. PARTIAL: that OpenSSL actually encrypts, verifies the
    chain, or reports a missing close-notify as an error is runtime behaviour, observed by the correspondence
    (raw bytes ahead of the peer's TLS engine), not provable here. *)
-From LibFtp Require Import Bytes Decimal Reply Endpoint DataConn DataConn_Proofs Client Client_Proofs.
+From LibFtp Require Import Bytes Decimal Reply Endpoint Ascii DataConn DataConn_Proofs Client Client_Proofs Login_Proofs Transfer_Proofs Transfer_More.
 Local Open Scope N_scope.
 
 (* every command line is written inside TLS exactly when the TLS layer of the control socket is up; between the
@@ -93,3 +93,39 @@ Theorem C11_truncated_data_is_error : forall t s segs ev r cb',
   data_recv t s segs DErr None = (ev, r, cb') -> r = PThrow.
 Proof. exact truncated_download_throws. Qed.
 Print Assumptions C11_truncated_data_is_error.
+
+(* connect with a TLS context, everything the call adds to the trace: AUTH TLS is the only line written in clear, the switch to the TLS socket and the handshake follow its positive reply immediately *)
+Theorem C11_connect_tls : forall w h p s srest g r1 rs a,
+  w_open w = false -> w_script w = s :: srest -> s_reachable s = true -> c_tls (w_cfg w) = true ->
+  r_now (s_greeting s) = [RReply g] -> r_close_after (s_greeting s) = false -> code g <> 421 -> code g <> 120 ->
+  is_negative g = false ->
+  s_reactions s = r1 :: rs -> simple_reaction r1 a -> is_negative a = false -> r_tls_ok r1 = true ->
+  exists w', step w (AConnect h p None) = (OReturn (RvReplies [g; a]), w') /\
+    insync w' rs /\ w_ssl w' = true /\ w_tls_up w' = true /\ w_sess_id w' = w_next_sess w /\
+    skipn (length (w_trace w)) (w_trace w') =
+      [ECtl (CConnect h p true)] ++ block (w_obs w) (OConnected h p) ++ [ERecv (w_ord w) g] ++ block (w_obs w) (OReply g) ++
+      block (w_obs w) (ORequest AUTH_TLS) ++ [EWire false (S (w_ord w)) AUTH_TLS] ++ [ERecv (S (w_ord w)) a] ++
+      block (w_obs w) (OReply a) ++ [ECtl (CSetSsl true); ECtl (CHandshake true (w_next_sess w))].
+Proof. exact connect_tls. Qed.
+Print Assumptions C11_connect_tls.
+
+(* a whole download over TLS: the data connection is wrapped after the transfer command was accepted and before any byte is read, and is shut down (close-notify) before it is closed *)
+Theorem C11_download_over_tls : forall w path r1 r2 rest x1 x2 x3 ip port,
+  insync w (r1 :: r2 :: rest) -> w_data w = None ->
+  c_mode (w_cfg w) = Passive -> c_tls (w_cfg w) = true ->
+  has_crlf path = false ->
+  simple_reaction r1 x1 -> is_negative x1 = false -> passive_target (w_cfg w) x1 ip port ->
+  dp_reachable (r_data r1) = true ->
+  accepts_transfer r2 x2 x3 -> dp_end (r_data r2) = DEof ->
+  dp_tls_ok (r_data r2) = true -> dp_shutdown_ok (r_data r2) = true ->
+  exists w', step w (ADownload path None None) = (OReturn (RvReplies [x1; x2; x3]), w') /\
+    insync w' rest /\ w_data w' = None /\ w_cfg w' = w_cfg w /\
+    sink_bytes (io_events (skipn (length (w_trace w)) (w_trace w'))) = delivered (c_type (w_cfg w)) (concat (dp_segs (r_data r2))) /\
+    wire_events (skipn (length (w_trace w)) (w_trace w')) =
+      [WLine (setup_line (w_cfg w)); WReply x1; WLine (RETR_ ++ SP :: path); WReply x2; WReply x3] /\
+    data_events (skipn (length (w_trace w)) (w_trace w')) =
+      [DNewObj; DConnectTo ip port true;
+       DHandshake (if c_resume (w_cfg w) then Some (w_sess_id w) else None) true;
+       DTlsShutdown true; DTcpShutdown; DClose].
+Proof. exact download_passive_complete_tls. Qed.
+Print Assumptions C11_download_over_tls.
